@@ -320,7 +320,7 @@ func (c *fn) selector(x *ast.SelectorExpr) cx {
 		c.fail(x, "method value or unknown selector %s", x.Sel.Name)
 	}
 	if len(sel.Index()) != 1 {
-		c.fail(x, "promoted field %s through an embedded struct is not supported", x.Sel.Name)
+		return c.promoted(x, sel)
 	}
 	xt := c.typeOf(x.X)
 	var holder cx
@@ -342,6 +342,41 @@ func (c *fn) selector(x *ast.SelectorExpr) cx {
 		return c.lift([]cx{holder}, func(v []string) string { return "(onil (" + f.name + " " + v[0] + "))" })
 	}
 	return c.lift([]cx{holder}, func(v []string) string { return "(" + f.name + " " + v[0] + ")" })
+}
+
+// promoted reads a field promoted through structs embedded BY VALUE: the chain of projections.
+func (c *fn) promoted(x *ast.SelectorExpr, sel *types.Selection) cx {
+	xt := c.typeOf(x.X)
+	var holder cx
+	var st types.Type
+	if p, ok := xt.(*types.Pointer); ok {
+		holder = c.pointee(x.X)
+		st = resolve(p.Elem(), c.sub)
+	} else {
+		holder = c.expr(x.X)
+		st = xt
+	}
+	var projs []string
+	for _, ix := range sel.Index() {
+		n, ok := st.(*types.Named)
+		if !ok || c.g.kind(n, c.sub) != kStruct {
+			c.fail(x, "promoted field %s: the path goes through a value of type %s", x.Sel.Name, types.TypeString(st, nil))
+		}
+		fv := n.Underlying().(*types.Struct).Field(ix)
+		f := c.g.record(n).field(c.g, fv.Name())
+		if f.nilable {
+			c.fail(x, "promoted field %s through a nilable field", x.Sel.Name)
+		}
+		projs = append(projs, f.name)
+		st = resolve(fv.Type(), c.sub)
+	}
+	return c.lift([]cx{holder}, func(v []string) string {
+		t := v[0]
+		for _, p := range projs {
+			t = "(" + p + " " + t + ")"
+		}
+		return t
+	})
 }
 
 // nilableSel: e selects a field declared in NilableFields (its record field is an option).
